@@ -9,6 +9,71 @@ FUNCS = cm.SCANNER + cm.BUFFER + [cm.P + 'remove_pure_action_lines', cm.P + 'exp
 def SELECT(name):
     return not cm.is_safety(name)
 
+def paragraphs_small_layouts(seed):
+    """the sentence of the property on enumerated layouts: two words with up
+    to four separating pieces between them (blanks, line breaks, blank
+    lines with and without blanks in them, comments, vanishing macros,
+    \\par); expected: a paragraph break in the output iff the source has a
+    blank line or \\par between the words, otherwise the words stay
+    separated by white space without a blank line"""
+    import itertools
+    import re
+    from pyvc import replay as _r
+    t2t = _r.real_module('yalafi.tex2txt')
+    pieces = [' ', '\n', '\n\n', '\n \n', '%c\n', '\\label{x}',
+              '\\index{y}', '\\unknownmacro ', '  ', '\\par ',
+              '\n\t\n', '%\n',
+              # a known macro whose argument is copied, closing brace on a
+              # line of its own (the brace vanishes, the line must not
+              # become a paragraph break)
+              '\\framebox{wq\n}\n', '\\LTadd{wq\n  }\n  ']
+    n, fails = 0, []
+    for ln in range(0, 5):
+        for combo in itertools.product(range(len(pieces)), repeat=ln):
+            if ln == 3 and (sum(combo) + seed) % 4:
+                continue
+            if ln == 4 and (sum(combo) * 7 + seed) % 61:
+                continue
+            sep = ''.join(pieces[i] for i in combo)
+            src = 'Aaa ' + sep + 'Bbb\n'
+            n += 1
+            try:
+                got = t2t.tex2txt(src, t2t.Options())[0]
+            except Exception as e:      # noqa
+                fails.append({'input': src, 'why': repr(e)})
+                continue
+            m = re.fullmatch(r'Aaa((?:.|\n)*)Bbb\n', got)
+            # a blank line is a line of white space only (a comment line is
+            # not blank)
+            want_break = bool(re.search(r'\n[ \t]*\n', src)) or \
+                '\\par' in sep
+            why = None
+            if not m:
+                why = 'words lost or text added: %r' % got
+            else:
+                mid = m.group(1)
+                has_break = bool(re.search(r'\n[ \t]*\n', mid))
+                if mid.replace('wq', '').strip():
+                    why = 'text between the words: %r' % mid
+                elif not mid:
+                    why = 'words glued'
+                elif has_break != want_break:
+                    why = 'paragraph break %s, expected %s (output %r)' % (
+                        has_break, want_break, got)
+            if why:
+                fails.append({'input': src, 'why': why})
+                if len(fails) >= 5:
+                    break
+        if len(fails) >= 5:
+            break
+    return {'name': 'paragraph-structure-on-small-layouts', 'bounded': True,
+            'bound': 'all separators of <= 2 pieces, a 4th of those with 3 '
+                     'and a 61st of those with 4 pieces over 14 pieces',
+            'evaluations': n, 'failures': fails}
+
+
+QUICK_BOUNDED = [paragraphs_small_layouts]
+
 TRUSTED = cm.TRUSTED_CORE
 ASSUMPTIONS = cm.ASSUME_CORE + ['paragraph structure of whole documents is not decided']
 LEVEL_TEXT = 'Proves layout lemmas: scan_space returns a Paragraph token iff the maximal white-space run contains at least two line breaks (else a Space token) and covers exactly that run; scan_comment swallows at most one line break and only white space after it, so a blank line after a comment survives; Buffer.skip_space / look_ahead consume only tokens of the space classes (Space, Comment, Action, Void, Language) -- a Paragraph token is returned, never skipped; look_ahead leaves the buffer length unchanged; remove_pure_action_lines only shortens the first/last token of a removed line and keeps every token inside the text. NOT decided: preservation of the number of paragraph breaks between two words for all layouts.'
